@@ -119,8 +119,8 @@ CHECKS = {
     ),
     'C13': dict(
         level='exploration',
-        units=[U('^TestC13$', (8, 12000), (16, 100000))],
-        essential_labels=['refused-add', 'refused-quantile', 'refused-merge', 'refused-reweight', 'refused-reweight-store-level', 'refused-constructor', 'accept-at-boundary', 'state:empty', 'state:non-empty', 'variant:exact', 'variant:plain', 'mismatch:kind', 'mismatch:alpha', 'mismatch:offset', 'near-equal-mapping-decoded'],
+        units=[U('^TestC13$', (8, 12000), (16, 100000)), U('^TestC13_DegenerateRange$', (2, 5000), (2, 100000))],
+        essential_labels=['refused-add', 'refused-quantile', 'refused-merge', 'refused-reweight', 'refused-reweight-store-level', 'refused-constructor', 'accept-at-boundary', 'state:empty', 'state:non-empty', 'variant:exact', 'variant:plain', 'mismatch:kind', 'mismatch:alpha', 'mismatch:offset', 'near-equal-mapping-decoded', 'degenerate-range', 'range:empty'],
         assumptions=COMMON_ASSUMPTIONS + ["NaN weights/factors/constructor parameters are outside the property"],
     ),
     'C14': dict(
